@@ -243,16 +243,17 @@ theorem remove_count (a : Arc κ ν) (k : κ) (o : Obj κ ν) :
         cases h4 : find k a.frequentEvict.items <;> (simp only [h4, heldAll, List.count_append] at *; omega)
 
 /-- `purge` releases every retained key and value, ghosts included -/
-theorem purge_count (a : Arc κ ν) (o : Obj κ ν) :
-    ∃ a' d, a.purge = .ok (a', d) ∧ a'.heldAll = [] ∧ a.heldAll.count o = d.count o := by
-  obtain ⟨r', e1, h1, hr0, hc1⟩ := RawLru.purge_count a.recent o
-  obtain ⟨f', e2, h2, hf0, hc2⟩ := RawLru.purge_count a.frequent o
-  obtain ⟨b1', e3, h3, hb10, hc3⟩ := RawLru.purge_count a.recentEvict o
-  obtain ⟨b2', e4, h4, hb20, hc4⟩ := RawLru.purge_count a.frequentEvict o
+theorem purge_count (a : Arc κ ν) :
+    ∃ a' d, a.purge = .ok (a', d) ∧ a'.heldAll = [] ∧ ∀ o : Obj κ ν, a.heldAll.count o = d.count o := by
+  obtain ⟨r', e1, h1, hr0, hc1⟩ := RawLru.purge_count a.recent
+  obtain ⟨f', e2, h2, hf0, hc2⟩ := RawLru.purge_count a.frequent
+  obtain ⟨b1', e3, h3, hb10, hc3⟩ := RawLru.purge_count a.recentEvict
+  obtain ⟨b2', e4, h4, hb20, hc4⟩ := RawLru.purge_count a.frequentEvict
   refine ⟨{ a with recent := r', frequent := f', recentEvict := b1', frequentEvict := b2' },
-    e1.drops ++ e2.drops ++ e3.drops ++ e4.drops, by simp only [Arc.purge, h1, h2, h3, h4], ?_, ?_⟩
+    e1.drops ++ e2.drops ++ e3.drops ++ e4.drops, by simp only [Arc.purge, h1, h2, h3, h4], ?_, fun o => ?_⟩
   · simp only [heldAll, hr0, hf0, hb10, hb20, held_nil, List.append_nil]
-  · simp only [heldAll, List.count_append]; omega
+  · have := hc1 o; have := hc2 o; have := hc3 o; have := hc4 o
+    simp only [heldAll, List.count_append]; omega
 
 theorem drop_count (a : Arc κ ν) (o : Obj κ ν) : a.dropCache.count o = a.heldAll.count o := by
   simp only [Arc.dropCache, RawLru.dropCache, heldAll, held, List.count_append]; omega
